@@ -28,6 +28,29 @@ Fixpoint emb_v (v : VS.jv) : jv :=
 (* variable n of c01vm is the jq variable $a..a (n+1 letters) *)
 Definition name_of (x : N) : bytes := 36%N :: repeat 97%N (S (N.to_nat x)).
 
+Definition op_of (o : VS.binop) : operator :=
+  match o with
+  | VS.OAdd => OpAdd | VS.OSub => OpSub | VS.OEq => OpEq | VS.ONe => OpNe
+  | VS.OLt => OpLt | VS.OLe => OpLe | VS.OGt => OpGt | VS.OGe => OpGe
+  end.
+
+(* the operands compileCallInternal inlines *)
+Definition tr_sarg (a : VS.sarg) : option q0 :=
+  match a with
+  | VS.AId => Some Z0Id
+  | VS.AConst VS.VNull => Some Z0Null
+  | VS.AConst (VS.VBool b) => Some (Z0Bool b)
+  | VS.AConst (VS.VNum z) => Some (Z0Num (print_Z z) (NInt z))
+  | VS.AConst (VS.VStr s) => Some (Z0Str s)
+  | VS.AConst _ => None
+  | VS.AIndex (VS.VStr (c :: k)) => Some (Z0Field Z0Id c k)
+  | VS.AIndex _ => None
+  | VS.AIter => Some (Z0Iter Z0Id)
+  | VS.AEmpty => Some Z0Empty
+  | VS.ACall0 VS.F0Error => Some Z0Error
+  | VS.ACall0 VS.F0Length => Some Z0Length
+  end.
+
 Fixpoint tr (q : VS.query) : option q0 :=
   match q with
   | VS.QId => Some Z0Id
@@ -54,6 +77,7 @@ Fixpoint tr (q : VS.query) : option q0 :=
       | Some s, Some i, Some u => Some (Z0Reduce s (name_of x) i u)
       | _, _, _ => None
       end
+  | VS.QBinop o a b => match tr_sarg a, tr_sarg b with Some a, Some b => Some (Z0Binop (op_of o) a b) | _, _ => None end
   | VS.QLabel l b => option_map (Z0Label (name_of l)) (tr b)
   | VS.QBreak l => Some (Z0Break (name_of l))
   | VS.QForeach src x init upd None =>
@@ -164,6 +188,17 @@ Qed.
 Lemma name_of_not_env x : list_N_eqb (name_of x) (codes "$ENV") = false.
 Proof. unfold name_of. destruct (N.to_nat x); reflexivity. Qed.
 
+Lemma tr_sarg_ok0 a a' : tr_sarg a = Some a' -> ok0 a'.
+Proof.
+  destruct a as [|c|k| | |f]; cbn [tr_sarg]; intros H.
+  - injection H as <-. exact I.
+  - destruct c; try discriminate; injection H as <-; exact I.
+  - destruct k as [| | |[|c k]| |]; try discriminate. injection H as <-. exact I.
+  - injection H as <-. exact I.
+  - injection H as <-. exact I.
+  - destruct f; injection H as <-; exact I.
+Qed.
+
 Fixpoint tr_ok0 (q : VS.query) : forall q', tr q = Some q' -> ok0 q'.
 Proof.
   destruct q; intros q' H; cbn [tr] in H.
@@ -189,6 +224,8 @@ Proof.
   - destruct (tr q1) eqn:E1, (tr q2) eqn:E2; try discriminate. injection H as <-. cbn. repeat split; eauto.
   - injection H as <-. cbn [ok0]. split; [reflexivity|apply name_of_not_env].
   - destruct f; injection H as <-; exact I.
+  - destruct (tr_sarg a) eqn:E1, (tr_sarg b) eqn:E2; try discriminate. injection H as <-. cbn [ok0].
+    split; [destruct o; reflexivity|]. split; eapply tr_sarg_ok0; eassumption.
 Qed.
 
 (* environments: c01vm binds variable numbers, Sem binds names *)
@@ -557,8 +594,27 @@ Hypothesis Hfield : forall L w c k, R L (of_nres false (fn_index2 (emb_v w) (VSt
 Hypothesis Herr : forall v, VC.n_fn0 nt VS.F0Error v = inr (VS.EVal v).
 Hypothesis Hlen : forall L v, R L (of_nres false (fn_length (emb_v v))) (VD.of_sum (VC.n_fn0 nt VS.F0Length v)).
 
+Hypothesis Hfn2 : forall L o v l r, R L (binop_res false (op_of o) (emb_v l) (emb_v r)) (VD.of_sum (VC.n_fn2 nt o v l r)).
+
 Lemma R_single L w : R L ([emb_v w], None) ([w], None).
 Proof. left. split; [reflexivity|exact I]. Qed.
+
+Lemma rbind_single v f : rbind ([v], None) f = f v.
+Proof. unfold rbind. cbn [fst snd rbind_list]. destruct (f v) as [ws [x|]]; cbn [rseq fst snd]; [reflexivity|]. rewrite app_nil_r. reflexivity. Qed.
+
+Lemma sarg_link a a' : tr_sarg a = Some a' -> forall L rs v, R L (den0 false a' rs (emb_v v)) (VD.den_sarg nt a v).
+Proof.
+  destruct a as [|c|k| | |f]; cbn [tr_sarg VD.den_sarg]; intros H L rs v.
+  - injection H as <-. apply R_single.
+  - destruct c; try discriminate; injection H as <-; cbn [den0];
+      [exact (R_single L VS.VNull)|exact (R_single L (VS.VBool b))|exact (R_single L (VS.VNum z))|exact (R_single L (VS.VStr s))].
+  - destruct k as [| | |[|c k]| |]; try discriminate. injection H as <-. cbn [den0]. rewrite rbind_single. apply Hfield.
+  - injection H as <-. cbn [den0]. rewrite rbind_single. apply Hiter.
+  - injection H as <-. left. split; [reflexivity|exact I].
+  - destruct f; injection H as <-; cbn [den0].
+    + rewrite Herr. left. split; [reflexivity|]. cbn. reflexivity.
+    + apply Hlen.
+Qed.
 
 Fixpoint den_link (q : VS.query) : forall q', tr q = Some q' ->
   forall rs rv v, renv rs rv -> R rs (den0 false q' rs (emb_v v)) (VD.den nt q rv v).
@@ -621,6 +677,9 @@ Proof.
   - destruct f; injection H as <-; cbn [den0 VD.den].
     + rewrite Herr. left. split; [reflexivity|]. cbn. reflexivity.
     + apply Hlen.
+  - (* binary operator: right operand first *)
+    destruct (tr_sarg a) eqn:E1, (tr_sarg b) eqn:E2; try discriminate. injection H as <-. cbn [den0 VD.den].
+    apply R_rbind; [apply sarg_link; exact E2|]. intros r. apply R_rbind; [apply sarg_link; exact E1|]. intros l. apply Hfn2.
 Qed.
 End Natives.
 
@@ -668,9 +727,71 @@ Definition s_fn0 (f : VS.fn0) (v : VS.jv) : VS.jv + VS.err0 :=
       end
   end.
 
+(* operators on c01vm values, mirroring Natives.binop_add / binop_sub / cmp_is on embedded values *)
+Definition embkvs (l : list (bytes * VS.jv)) : list (bytes * jv) := map (fun kv => (fst kv, emb_v (snd kv))) l.
+
+Fixpoint sobj_set (kvs : list (bytes * VS.jv)) (k : bytes) (v : VS.jv) : list (bytes * VS.jv) :=
+  match kvs with
+  | [] => [(k, v)]
+  | (k', v') :: r => match bytes_cmp k k' with
+                     | Eq => (k, v) :: r
+                     | Lt => (k, v) :: kvs
+                     | Gt => (k', v') :: sobj_set r k v
+                     end
+  end.
+Definition sobj_merge (l r : list (bytes * VS.jv)) : list (bytes * VS.jv) :=
+  fold_left (fun acc kv => sobj_set acc (fst kv) (snd kv)) r l.
+
+Definition s_add (l r : VS.jv) : VS.jv + VS.err0 :=
+  match l, r with
+  | VS.VNum a, VS.VNum b => inl (VS.VNum (a + b))
+  | VS.VStr a, VS.VStr b => inl (VS.VStr (a ++ b))
+  | VS.VArr a, VS.VArr b => inl (VS.VArr (a ++ b))
+  | VS.VObj a, VS.VObj b => inl (VS.VObj (sobj_merge a b))
+  | VS.VNull, _ => inl r
+  | _, VS.VNull => inl l
+  | _, _ => inr (emsg (msg2 ("cannot " ++ "add" ++ ": ") (emb_v l) " and " (emb_v r)))
+  end.
+Definition s_sub (l r : VS.jv) : VS.jv + VS.err0 :=
+  match l, r with
+  | VS.VNum a, VS.VNum b => inl (VS.VNum (a - b))
+  | VS.VArr a, VS.VArr b => inl (VS.VArr (filter (fun x => negb (existsb (fun y => jv_eqb (emb_v x) (emb_v y)) b)) a))
+  | _, _ => inr (emsg (msg2 ("cannot " ++ "subtract" ++ ": ") (emb_v l) " and " (emb_v r)))
+  end.
+Definition s_cmp (f : comparison -> bool) (l r : VS.jv) : VS.jv + VS.err0 := inl (VS.VBool (f (jv_cmp (emb_v l) (emb_v r)))).
+Definition s_fn2 (o : VS.binop) (v l r : VS.jv) : VS.jv + VS.err0 :=
+  match o with
+  | VS.OAdd => s_add l r
+  | VS.OSub => s_sub l r
+  | VS.OEq => s_cmp (fun c => match c with Eq => true | _ => false end) l r
+  | VS.ONe => s_cmp (fun c => match c with Eq => false | _ => true end) l r
+  | VS.OGt => s_cmp (fun c => match c with Gt => true | _ => false end) l r
+  | VS.OLt => s_cmp (fun c => match c with Lt => true | _ => false end) l r
+  | VS.OGe => s_cmp (fun c => match c with Lt => false | _ => true end) l r
+  | VS.OLe => s_cmp (fun c => match c with Gt => false | _ => true end) l r
+  end.
+
 Definition sem_natives : VC.natives :=
-  {| VC.n_index := s_index; VC.n_iter := s_iter; VC.n_fn0 := s_fn0;
-     VC.n_fn2 := fun _ _ _ _ => inr (VS.EMsg []) |}.
+  {| VC.n_index := s_index; VC.n_iter := s_iter; VC.n_fn0 := s_fn0; VC.n_fn2 := s_fn2 |}.
+
+Lemma sobj_set_emb l k v : obj_set (embkvs l) k (emb_v v) = embkvs (sobj_set l k v).
+Proof.
+  induction l as [|[k' v'] r IH]; [reflexivity|]. cbn [embkvs map fst snd obj_set sobj_set] in *.
+  destruct (bytes_cmp k k'); cbn [map fst snd]; try reflexivity. f_equal. exact IH.
+Qed.
+
+Lemma sobj_merge_emb l r : obj_merge (embkvs l) (embkvs r) = embkvs (sobj_merge l r).
+Proof.
+  unfold obj_merge, sobj_merge. revert l. induction r as [|[k v] r IH]; intros l; [reflexivity|].
+  cbn [embkvs map fold_left fst snd]. rewrite sobj_set_emb. apply IH.
+Qed.
+
+Lemma filter_map_emb (p : jv -> bool) a : filter p (map emb_v a) = map emb_v (filter (fun x => p (emb_v x)) a).
+Proof. induction a as [|x a IH]; [reflexivity|]. cbn [map filter]. destruct (p (emb_v x)); cbn [map]; rewrite IH; reflexivity. Qed.
+
+Lemma existsb_map_emb (p : jv -> bool) b : existsb p (map emb_v b) = existsb (fun y => p (emb_v y)) b.
+Proof. induction b as [|y b IH]; [reflexivity|]. cbn [map existsb]. rewrite IH. reflexivity. Qed.
+
 
 Lemma R_msg L c o : R L ([], Some (XErr O c (option_map VStr o))) ([], Some (VD.XErr (emsg (option_map VStr o)))).
 Proof. left. split; [reflexivity|]. destruct o; cbn; auto. Qed.
@@ -718,10 +839,29 @@ Proof.
   - left. split; [|exact I]. cbn [fst map emb_v]. unfold VInt. rewrite zlen_map. reflexivity.
 Qed.
 
+Lemma msg2_str pre l mid r : exists o, msg2 pre l mid r = option_map VStr o.
+Proof. unfold msg2. destruct (tep l) as [a|], (tep r) as [b|]; [exists (Some (codes pre ++ a ++ codes mid ++ b))|exists None|exists None|exists None]; reflexivity. Qed.
+
+Ltac msg2_case :=
+  unfold err_binop; cbn [of_nres]; unfold mask;
+  match goal with |- context [msg2 ?p ?x ?m ?y] => destruct (msg2_str p x m y) as [o Ho]; rewrite Ho end; apply R_msg.
+
+Lemma sem_fn2 L o v l r : R L (binop_res false (op_of o) (emb_v l) (emb_v r)) (VD.of_sum (VC.n_fn2 sem_natives o v l r)).
+Proof.
+  cbn [VC.n_fn2 sem_natives]. unfold binop_res.
+  destruct o; cbn [op_of op_binop s_fn2]; try (unfold cmp_is, ok_bool, s_cmp; cbn [of_nres VD.of_sum]; left; split; [reflexivity|exact I]).
+  - destruct l, r; cbn [emb_v binop_add s_add of_nres VD.of_sum num_add ok_str]; try (left; split; [reflexivity|exact I]); try msg2_case.
+    + left. split; [|exact I]. cbn [fst map emb_v]. rewrite map_app. reflexivity.
+    + left. split; [|exact I]. cbn [fst map emb_v]. fold (embkvs l). fold (embkvs l0). rewrite sobj_merge_emb. reflexivity.
+  - destruct l, r; cbn [emb_v binop_sub s_sub of_nres VD.of_sum num_sub]; try (left; split; [reflexivity|exact I]); try msg2_case.
+    left. split; [|exact I]. cbn [fst map emb_v]. rewrite filter_map_emb. do 3 f_equal.
+    apply filter_ext. intros x. rewrite existsb_map_emb. reflexivity.
+Qed.
+
 Theorem den_link_sem q q' : tr q = Some q' ->
   forall v, R [] (den0 false q' [] (emb_v v)) (VD.den sem_natives q [] v).
 Proof.
-  intros H v. apply (den_link sem_natives sem_iter sem_field (fun v => eq_refl) sem_length q q' H [] [] v renv_nil).
+  intros H v. apply (den_link sem_natives sem_iter sem_field (fun v => eq_refl) sem_length sem_fn2 q q' H [] [] v renv_nil).
 Qed.
 
 (* ------------------------------------------------------------------------------------------ *)
